@@ -30,6 +30,18 @@ type FieldSpec struct {
 	Axis  int    `json:"axis"`  // 0: ball; 1,2,3: cylinder along x,y,z
 	Kind  string `json:"fkind"` // "" lattice values | "real" | "ring"
 	Api   string `json:"api"`   // entry point used on the parallel canvas ("" = the case's)
+	// kind "orth" (lattice values): an orthant solid / plate positioned relative to block seams. The
+	// axes in Mask (bit k = axis k) constrain; along such an axis the signed distance in half cells is
+	// d = Sgn*(2*p - C2) (C2 odd: the surface lies between two sample layers); the solid is where the
+	// least d is positive and, when R2 > 0, less than R2 (a plate R2/2 cells thick).
+	Mask int `json:"mask"`
+	Sgn  int `json:"sgn"`
+	// kinds "union" / "msline" (real values): fields of the marching package whose sampling closure has
+	// shared internal structure (an octree over the parts). Shapes, in cells:
+	//   [0, cx,cy,cz, r] sphere   [1, cx,cy,cz, sx,sy,sz] box   [2, x0,y0,z0, x1,y1,z1, r] line
+	// "union": marching.CombineFields of the shapes; "msline": marching.MultiSegmentLine through the
+	// points [3, x,y,z].. with radius R2/2. The domain is the box Lo..Hi (contains every part).
+	Shapes [][]int `json:"shapes"`
 }
 
 // TriScale: triangle corners are logged in units of 1/TriScale cell. With
@@ -61,6 +73,33 @@ func fieldValue(fs FieldSpec, rank int, x, y, z int) float64 {
 	}
 	d2 := dx*dx + dy*dy + dz*dz
 	r := fs.R2
+	if fs.Kind == "orth" {
+		first := true
+		d := 0
+		for k, dk := range [3]int{2*x - fs.C2[0], 2*y - fs.C2[1], 2*z - fs.C2[2]} {
+			if fs.Mask&(1<<k) == 0 {
+				continue
+			}
+			if fs.Sgn < 0 {
+				dk = -dk
+			}
+			if first || dk < d {
+				d, first = dk, false
+			}
+		}
+		if r > 0 && r-d < d {
+			d = r - d
+		}
+		switch {
+		case d >= 3:
+			return -2
+		case d >= 1:
+			return -1
+		case d >= -1:
+			return 1
+		}
+		return 2
+	}
 	switch fs.Kind {
 	case "real": // the true distance to the ball / cylinder
 		return (math.Sqrt(float64(d2)) - float64(r)) / 2
@@ -233,6 +272,33 @@ func (l *sampleLog) boxes() [][]int {
 	return out
 }
 
+// closureField builds the real marching-package field of kinds "union" / "msline".
+func closureField(c Case, fs FieldSpec) marching.Field {
+	cpu := float64(c.Cpu)
+	v := func(s []int, k int) vector3.Float64 {
+		return vector3.New(float64(s[k])/cpu, float64(s[k+1])/cpu, float64(s[k+2])/cpu)
+	}
+	if fs.Kind == "msline" {
+		pts := []vector3.Float64{}
+		for _, s := range fs.Shapes {
+			pts = append(pts, v(s, 1))
+		}
+		return marching.MultiSegmentLine(pts, float64(fs.R2)/2/cpu, 1)
+	}
+	parts := []marching.Field{}
+	for _, s := range fs.Shapes {
+		switch s[0] {
+		case 0:
+			parts = append(parts, marching.Sphere(v(s, 1), float64(s[4])/cpu, 1))
+		case 1:
+			parts = append(parts, marching.Box(v(s, 1), v(s, 4), 1))
+		default:
+			parts = append(parts, marching.Line(v(s, 1), v(s, 4), float64(s[7])/cpu, 1))
+		}
+	}
+	return marching.CombineFields(parts...)
+}
+
 func floorDiv(a, b int) int { return int(math.Floor(float64(a) / float64(b))) }
 
 // mkField builds the real marching.Field. Every evaluation is logged; when g
@@ -250,8 +316,15 @@ func mkField(c Case, fs FieldSpec, log *sampleLog, g *Gate) marching.Field {
 	var seenMu sync.Mutex
 	seen := map[int]bool{}
 	fns := map[string]sample.Vec3ToFloat{}
+	// the real closures of a marching-package field (shared by all jobs, called concurrently: the
+	// wrapper below only counts, lock free, and then calls them)
+	var real map[string]sample.Vec3ToFloat
+	if fs.Kind == "union" || fs.Kind == "msline" {
+		real = closureField(c, fs).Float1Functions
+	}
 	for rank, id := range fs.Attrs {
 		rank, id := rank, id
+		realFn := real[attrName(id)]
 		fns[attrName(id)] = func(p vector3.Float64) float64 {
 			fx, fy, fz := p.X()*cpu, p.Y()*cpu, p.Z()*cpu
 			x, y, z := int(math.Round(fx)), int(math.Round(fy)), int(math.Round(fz))
@@ -279,6 +352,9 @@ func mkField(c Case, fs FieldSpec, log *sampleLog, g *Gate) marching.Field {
 				}
 			}
 			log.add(id, x, y, z)
+			if realFn != nil {
+				return realFn(p)
+			}
 			return fieldValue(fs, rank, x, y, z)
 		}
 	}
